@@ -1,4 +1,4 @@
-import Ledger.Proofs.MachineAsset
+import Ledger.Proofs.MachineKept
 
 /-!
 C22 — Numscript sends move exactly the requested amount.
@@ -25,7 +25,7 @@ theorem send_conserves (env : Env) (henv : EnvGood env) (ds : Decls) (mon : Expr
       amountSum new + kept = amt ∧ 0 ≤ kept := by
   cases src with
   | src s =>
-    obtain ⟨asset, amt, new, kept, hm, ok⟩ := send_src_ok h
+    obtain ⟨asset, amt, new, kept, hm, ok, _⟩ := send_src_ok h
     exact ⟨asset, amt, new, kept, hm, ok.postings, fun p hp => ⟨ok.assetOk p hp, ok.nonneg p hp⟩,
       ok.sum, ok.keptNonneg⟩
   | allot items =>
@@ -39,9 +39,82 @@ theorem send_conserves (env : Env) (henv : EnvGood env) (ds : Decls) (mon : Expr
           split at hsrc
           · cases hsrc
           · rename_i hu; exact hu
-    obtain ⟨asset, amt, new, kept, hm, ok⟩ := send_allot_ok henv hca h
+    obtain ⟨asset, amt, new, kept, hm, ok, _⟩ := send_allot_ok henv hca h
     exact ⟨asset, amt, new, kept, hm, ok.postings, fun p hp => ⟨ok.assetOk p hp, ok.nonneg p hp⟩,
       ok.sum, ok.keptNonneg⟩
+
+/-- What is left of a non-negative funding by a kept-free destination the compiler
+    accepted is worth nothing. -/
+theorem keptfree_destination_sends_everything (env : Env) (henv : EnvGood env) (ds : Decls)
+    (asset : String) (d : Dest) (hk : keptFreeDest d = true) (hc : checkDest ds d = .ok ())
+    (f : List Part) (st : State) (rem : List Part) (st' : State) (hf : partsNonneg f)
+    (h : evalDest env asset d f st = .ok (rem, st')) : total rem = 0 :=
+  evalDest_keptfree env henv ds asset d hk hc f st rem st' hf h
+
+/-- Corollary of `send_conserves`: when the destination has no `kept` clause, the
+    postings of `send <monetary>` sum to the sent amount EXACTLY. -/
+theorem send_conserves_keptfree (env : Env) (henv : EnvGood env) (ds : Decls) (mon : Expr)
+    (src : VSource) (dst : Dest) (st st' : State) (hc : checkStmt ds (.send mon src dst) = .ok ())
+    (hk : keptFreeDest dst = true) (h : evalStmt cfg env (.send mon src dst) st = .ok st') :
+    ∃ asset amt new, evalMonetary env mon = .ok (asset, some amt) ∧
+      st'.postings = st.postings ++ new ∧ (∀ p ∈ new, p.asset = asset ∧ 0 ≤ p.amount) ∧
+      amountSum new = amt := by
+  have hcd : checkDest ds dst = .ok () := by
+    simp only [checkStmt] at hc
+    split at hc
+    · cases hc
+    · split at hc
+      · cases hc
+      · exact hc
+  have fin : ∀ asset amt new kept, evalMonetary env mon = .ok (asset, some amt) →
+      SendOK st st' asset amt new kept → KeptWitness env dst kept →
+      ∃ asset amt new, evalMonetary env mon = .ok (asset, some amt) ∧
+        st'.postings = st.postings ++ new ∧ (∀ p ∈ new, p.asset = asset ∧ 0 ≤ p.amount) ∧
+        amountSum new = amt := by
+    intro asset amt new kept hm ok ⟨f, st0, rem, st1, hf, hd, hkept⟩
+    have h0 := evalDest_keptfree env henv ds f.asset dst hk hcd f.parts st0 rem st1 hf hd
+    refine ⟨asset, amt, new, hm, ok.postings, fun p hp => ⟨ok.assetOk p hp, ok.nonneg p hp⟩, ?_⟩
+    have := ok.sum
+    omega
+  cases src with
+  | src s =>
+    obtain ⟨asset, amt, new, kept, hm, ok, w⟩ := send_src_ok h
+    exact fin asset amt new kept hm ok w
+  | allot items =>
+    have hca : checkAllotment ds items.portions = .ok () := by
+      simp only [checkStmt] at hc
+      split at hc
+      · cases hc
+      · split at hc
+        · cases hc
+        · rename_i hsrc
+          split at hsrc
+          · cases hsrc
+          · rename_i hu; exact hu
+    obtain ⟨asset, amt, new, kept, hm, ok, w⟩ := send_allot_ok henv hca h
+    exact fin asset amt new kept hm ok w
+
+/-- Same for `send [A *]` with a kept-free destination: the postings sum exactly to the
+    funds available from the sources. -/
+theorem send_all_keptfree_sum_eq_available (env : Env) (henv : EnvGood env) (ds : Decls)
+    (assetE : Expr) (s : Source) (dst : Dest) (st st' : State)
+    (hc : checkStmt ds (.sendAll assetE (.src s) dst) = .ok ()) (hk : keptFreeDest dst = true)
+    (h : evalStmt cfg env (.sendAll assetE (.src s) dst) st = .ok st') :
+    ∃ asset f b1 new, evalAssetE env assetE = .ok asset ∧
+      evalSource cfg env asset s st.bal = .ok (f, b1) ∧
+      st'.postings = st.postings ++ new ∧ amountSum new = total f.parts := by
+  have hcd : checkDest ds dst = .ok () := by
+    simp only [checkStmt] at hc
+    split at hc
+    · cases hc
+    · split at hc
+      · cases hc
+      · exact hc
+  obtain ⟨asset, f, b1, new, kept, ha, hs, ok, ⟨f', st0, rem, st1, hf, hd, hkept⟩⟩ := sendAll_ok h
+  have h0 := evalDest_keptfree env henv ds f'.asset dst hk hcd f'.parts st0 rem st1 hf hd
+  refine ⟨asset, f, b1, new, ha, hs, ok.postings, ?_⟩
+  have := ok.sum
+  omega
 
 /-- `send [A *]`: the postings are non-negative, all in one asset (the asset of the
     funding the sources yield) and their sum plus the kept part is exactly the
@@ -52,7 +125,7 @@ theorem send_all_sum_eq_available (env : Env) (assetE : Expr) (s : Source) (dst 
       evalSource cfg env asset s st.bal = .ok (f, b1) ∧
       st'.postings = st.postings ++ new ∧ (∀ p ∈ new, p.asset = f.asset ∧ 0 ≤ p.amount) ∧
       amountSum new + kept = total f.parts ∧ 0 ≤ kept := by
-  obtain ⟨asset, f, b1, new, kept, ha, hs, ok⟩ := sendAll_ok h
+  obtain ⟨asset, f, b1, new, kept, ha, hs, ok, _⟩ := sendAll_ok h
   exact ⟨asset, f, b1, new, kept, ha, hs, ok.postings,
     fun p hp => ⟨ok.assetOk p hp, ok.nonneg p hp⟩, ok.sum, ok.keptNonneg⟩
 
@@ -69,7 +142,7 @@ theorem send_all_in_statement_asset_partial (env : Env) (assetE : Expr) (s : Sou
     (st st' : State) (a : String) (h : evalStmt cfg env (.sendAll assetE (.src s) dst) st = .ok st')
     (ha : evalAssetE env assetE = .ok a) (ho : cfg.overdraftAssetCheck = true ∨ OdAsset env a s) :
     ∃ new, st'.postings = st.postings ++ new ∧ ∀ p ∈ new, p.asset = a ∧ 0 ≤ p.amount := by
-  obtain ⟨asset, f, b1, new, kept, ha', hs, ok⟩ := sendAll_ok h
+  obtain ⟨asset, f, b1, new, kept, ha', hs, ok, _⟩ := sendAll_ok h
   rw [ha] at ha'; cases ha'
   refine ⟨new, ok.postings, fun p hp => ⟨?_, ok.nonneg p hp⟩⟩
   rw [ok.assetOk p hp]
@@ -161,5 +234,9 @@ example : postingsOf (sem Cfg.fixed exScript exInput) =
 example : trackedInit Cfg.fixed exScript exInput "b" "USD" = some 25 := by decide +kernel
 
 example : (checkStmts [("m", .monetary)] exScript.stmts = .ok ()) := by decide +kernel
+
+example : keptFreeDest (.inorder (.cons (.mon (.asset "USD") 5) (.to (.account (.acct "x"))) .nil)
+    (.to (.allot (.cons (.lit "1/2") (.to (.account (.acct "y"))) (.cons .remaining (.to (.account (.acct "z"))) .nil))))) = true := by
+  decide +kernel
 
 end Ledger.C22
